@@ -8,6 +8,7 @@ pub mod c07;
 pub mod c08;
 pub mod c09;
 pub mod c10;
+pub mod c12;
 
 pub struct Prop {
     pub id: &'static str,
@@ -27,6 +28,7 @@ pub fn all() -> Vec<Prop> {
         Prop { id: "C05", run: c05::run, subs: c05::subs, rule: c05::RULE, assumptions: c05::ASSUMPTIONS },
         Prop { id: "C06", run: c06::run, subs: c06::subs, rule: c06::RULE, assumptions: c06::ASSUMPTIONS },
         Prop { id: "C10", run: c10::run, subs: c10::subs, rule: c10::RULE, assumptions: c10::ASSUMPTIONS },
+        Prop { id: "C12", run: c12::run, subs: c12::subs, rule: c12::RULE, assumptions: c12::ASSUMPTIONS },
     ]
 }
 
